@@ -487,8 +487,88 @@ def run_mpl(c):
     return problems
 
 
+# ------------------------------------------------------------------ user supplied extra 3-D models (style.model3d traces)
+EXTRA_Q = np.array([(0.1, 0.2, 0.3), (0.5, -0.2, 0.1), (-0.3, 0.4, 0.6), (0.2, 0.2, -0.5), (0.0, -0.4, 0.2)])
+EXTRA_FORMS = ["generic_kwargs", "plotly_kwargs", "plotly_callable", "matplotlib_args"]
+
+
+def run_extra(c):
+    """an extra model attached by the user is part of the object's graphic: its points (local coordinates x trace scale) must be
+    drawn at R_m (scale Q) + p_m for every displayed path index, in the announced unit - and the trace definition must come
+    back unchanged (it is re-used for every index and every later show)"""
+    import magpylib as magpy
+
+    cls, pk, frames, unit, form, tscale = c["cls"], c["path"], c["frames"], c["unit"], c["form"], c["tscale"]
+    scale = {"m": 1.0, "mm": 1e-3, "km": 1e3}[unit] if unit != "m" else 1.0
+    obj = mk(cls, pk, scale)
+    if cls == "Cuboid":
+        obj.style.magnetization.show = False
+    Q = EXTRA_Q * scale
+    if frames != "default":
+        obj.style.path.frames = frames
+    kw = dict(x=Q[:, 0].copy(), y=Q[:, 1].copy(), z=Q[:, 2].copy(), mode="lines")
+    if form == "generic_kwargs":
+        obj.style.model3d.add_trace(backend="generic", constructor="scatter3d", kwargs=kw, scale=tscale, show=True)
+    elif form == "plotly_kwargs":
+        obj.style.model3d.add_trace(backend="plotly", constructor="Scatter3d", kwargs=kw, scale=tscale, show=True)
+    elif form == "plotly_callable":
+        obj.style.model3d.add_trace(backend="plotly", constructor="Scatter3d", kwargs=lambda: dict(kw), scale=tscale, show=True)
+    else:
+        obj.style.model3d.add_trace(backend="matplotlib", constructor="plot", args=(Q[:, 0].copy(), Q[:, 1].copy(), Q[:, 2].copy()),
+                                    kwargs={"ls": "-"}, scale=tscale, show=True)
+    backend = "matplotlib" if form == "matplotlib_args" else "plotly"
+    import copy as _copy
+
+    t0 = obj.style.model3d.data[-1]
+    def0 = _copy.deepcopy((t0.kwargs if not callable(t0.kwargs) else None, t0.args if not callable(t0.args) else None, t0.scale, t0.coordsargs))
+    problems = []
+    for rep in (1, 2):     # shown twice: the second figure must be the same
+        try:
+            with common.time_limit(120):
+                fig = magpy.show(obj, backend=backend, return_fig=True, units_length=unit)
+        except Exception as e:
+            return [f"show-raised-{type(e).__name__}: {e}"[:160]]
+        if backend == "plotly":
+            u = unit_from_title(fig.layout.scene.xaxis.title.text)
+            tr = [t for t in fig.data if t.type == "scatter3d" and (t.mode or "") == "lines"]
+        else:
+            import matplotlib.pyplot as plt
+
+            u = unit_from_title(fig.axes[0].get_xlabel())
+            tr = [t for t in mpl_traces(fig) if t.type == "scatter3d" and t.mode == "lines"]
+            plt.close(fig)
+        if u != unit:
+            return [f"axis-unit-{u}-instead-of-{unit}"]
+        factor = UNIT_FACTOR[unit]
+        if not tr:
+            return [f"extra-model-not-drawn (show #{rep})"]
+        P = np.concatenate([xyz(t) for t in tr]) / factor
+        P = P[np.isfinite(P).all(axis=1)]
+        L = len(obj._position)
+        idxs = expected_indices(L, frames)
+        want = np.concatenate([obj._orientation[m].apply(Q * tscale) + obj._position[m] for m in idxs])
+        size = np.max(np.abs(Q)) * max(tscale, 1)
+        d = np.min(np.linalg.norm(want[:, None, :] - P[None], axis=2), axis=1)
+        if np.max(d) > 1e-9 * size + 1e-12 * np.max(np.abs(want)):
+            i = int(np.argmax(d))
+            problems.append(f"extra-model-point-missing (show #{rep}): expected {want[i].tolist()} at displayed index {idxs[i // len(Q)]}, nearest drawn point {d[i] / size:.3g} sizes away")
+            break
+        if len(P) != len(want):
+            problems.append(f"extra-model-drawn-{len(P)}-points-instead-of-{len(want)} (show #{rep})")
+            break
+    t = obj.style.model3d.data[-1]
+    def1 = (t.kwargs if not callable(t.kwargs) else None, t.args if not callable(t.args) else None, t.scale, t.coordsargs)
+    from mc.props.C18 import deep_sig
+
+    if deep_sig(def1) != deep_sig(def0):
+        problems.append("show-changed-the-trace-definition (kwargs / args of the user's trace)")
+    return problems
+
+
 def work(c):
     try:
+        if c.get("extra"):
+            return run_extra(c)
         if c.get("backend") == "matplotlib":
             return run_mpl(c)
         if "fault" in c:
@@ -523,6 +603,16 @@ def enumerate_cases(tier):
                     if pk == "long11" and anim not in ("downsample", "kwargs"):
                         continue
                     cases.append({"cls": cls, "path": pk, "frames": "default", "unit": "m", "nest": nest, "anim": anim, "scaled": False})
+    for cls in ("Cuboid", "Sensor"):
+        for pk in ("static", "rot4", "spin4"):
+            for frames in ("default", 1, [0, 2]):
+                if pk == "static" and frames != "default":
+                    continue
+                for unit in ("m", "mm"):
+                    for form in EXTRA_FORMS:
+                        for tscale in (1, 2.5):
+                            cases.append({"extra": True, "cls": cls, "path": pk, "frames": frames, "unit": unit, "form": form, "tscale": tscale,
+                                          "nest": "bare", "anim": False})
     for cls in CLASSES:
         if cls in ("Sensor", "Dipole"):
             continue   # autosized glyphs are backend specific
@@ -552,6 +642,9 @@ def run(tier, seed):
                 harness.append(f"{c}: {p}")
                 continue
             kind = p.split(":")[0]
+            if c.get("extra"):
+                viols.append({"key": f"C19|extra-model|{c['form']}|{c['path']}|scale={c['tscale']}|{kind.split(' ')[0]}", "what": f"{c}: {p}", "case": c, "observed": p})
+                continue
             if c.get("backend") == "matplotlib":
                 fr_ = "frames-list" if isinstance(c["frames"], list) else f"frames-{c['frames']}"
                 viols.append({"key": f"C19|matplotlib|{c['cls']}|{c['path']}|{fr_}|{kind}", "what": f"{c}: {p}", "case": c, "observed": p})
@@ -567,7 +660,7 @@ def run(tier, seed):
             viols.append({"key": f"C19|{c['cls']}|{c['path']}|{fr}|{'anim' if c['anim'] else 'static-fig'}|{kind}",
                           "what": f"{c}: {p}", "case": c, "observed": p})
     cov = {
-        "evaluations": len(cases), "distinct_nontrivial": sum(1 for c in cases if "fault" in c or c["path"] != "static" or c["nest"] != "bare" or c["unit"] != "m"),
+        "evaluations": len(cases), "distinct_nontrivial": sum(1 for c in cases if "fault" in c or c.get("extra") or c["path"] != "static" or c["nest"] != "bare" or c["unit"] != "m"),
         "rule": "one evaluation = one show(..., backend='plotly', return_fig=True) call whose traces are mapped back to the objects; "
                 "cases are distinct (class, path kind, frames, unit, nesting, animation); non-trivial = a path, a parent or a non-metre unit",
         "samples": [cases[0], cases[len(cases) // 2], cases[-1]],
